@@ -1,5 +1,5 @@
 // ======================================================================================
-// prelude/rc_asref.rs — `<Rc<T> as AsRef<T>>::as_ref`, which vstd (0.2026.09.13) has no
+// prelude/rc_asref.rs - `<Rc<T> as AsRef<T>>::as_ref`, which vstd (0.2026.09.13) has no
 // specification for.  ASSUMED contract = the documented / actual std implementation:
 //        impl<T: ?Sized, A: Allocator> AsRef<T> for Rc<T, A> { fn as_ref(&self) -> &T { &**self } }
 // i.e. the result is a reference to the value the Rc points to.
